@@ -78,7 +78,7 @@ def flatten(forest):
 
 
 def coq_call(c):
-    return "Call %d %d %d [%s]" % (c.k, c.t0, c.t1, "; ".join(coq_call(k) for k in c.kids))
+    return "Call %d %d %d [%s]" % (256 * c.k, c.t0, c.t1, "; ".join(coq_call(k) for k in c.kids))
 
 
 def coq_forest(f):
@@ -89,7 +89,7 @@ def coq_events(evs):
     out = []
     for e in evs:
         if e[0] == "E":
-            out.append("Enter %d %d" % (e[1], e[2]))
+            out.append("Enter %d %d" % (256 * e[1], e[2]))
         elif e[0] == "X":
             out.append("Leave %d" % e[2])
         elif e[0] == "F":
@@ -117,10 +117,10 @@ def coq_cfg(cfg, sizes):
     fm = any(t.get("filter") is True for t in trig.values())
     cl = any(t.get("caller") for t in trig.values())
     return "(mkcfg [%s] %s %s %d %d %d [%s] %s)" % (
-        "; ".join("(%d, %s)" % (k, coq_trig(t)) for k, t in sorted(trig.items())),
+        "; ".join("(%d, %s)" % (256 * k, coq_trig(t)) for k, t in sorted(trig.items())),
         C.coq_bool(fm), C.coq_bool(cl),
         cfg.get("depth") if cfg.get("depth") is not None else 1024,
         cfg.get("threshold") or 0,
         cfg.get("max_stack") if cfg.get("max_stack") is not None else 1024,
-        "; ".join("(%d, %d)" % (i, s) for i, s in enumerate(sizes)),
+        "; ".join("(%d, %d)" % (256 * i, s) for i, s in enumerate(sizes)),
         "CYG" if cfg.get("shape") == "cyg" else "PG")
